@@ -15,6 +15,7 @@ use std::path::Path;
 use std::sync::atomic::{AtomicU32, AtomicU64, Ordering};
 use std::sync::Arc;
 use tokio::io::{AsyncReadExt, BufReader};
+use tokio::sync::Mutex;
 use tracing::{debug, error, info};
 
 pub const BUF_READER_CAPACITY_BYTES: usize = 512 * 1000;
@@ -26,6 +27,8 @@ pub struct FileState {
     entries_count: AtomicU64,
     current_leader: AtomicU32,
     term: AtomicU64,
+    // Serialises `apply`: index allocation and the append must not interleave.
+    apply_lock: Mutex<()>,
     version: u32,
     path: String,
     persister: Arc<PersisterKind>,
@@ -44,6 +47,7 @@ impl FileState {
             entries_count: AtomicU64::new(0),
             current_leader: AtomicU32::new(0),
             term: AtomicU64::new(0),
+            apply_lock: Mutex::new(()),
             path: path.into(),
             persister,
             encryptor,
@@ -303,6 +307,7 @@ impl State for FileState {
 
     async fn apply(&self, user_id: u32, command: EntryCommand) -> Result<(), IggyError> {
         debug!("Applying state entry with command: {command}, user ID: {user_id}");
+        let _apply_guard = self.apply_lock.lock().await;
         let timestamp = IggyTimestamp::now();
         // The counters are advanced only after the entry has been appended successfully.
         let index = if self.entries_count.load(Ordering::SeqCst) == 0 {
